@@ -176,6 +176,35 @@ def run(chk: Check):
                         chk.violation(f"{cls.__name__}.{name}:stale-or-foreign", f"after recording {rname}: {name} reads {got!r}, expected {ref[name]!r}", {"class": cls.__name__, "recording": rname})
                 chk.count_case(["recording", rname, cid], True)
 
+    # end to end: the same histories as BYTES from the device, through the real connection (reader thread, framing,
+    # keep-alive handling) under the deterministic harness, to real instances; attributes read when the device is done
+    from . import c09 as _c09
+
+    erng = random.Random(chk.seed * 131 + 3)
+    for _ in range(60 if chk.tier == "quick" else 1500):
+        sc = _c09.gen_scenario(erng, chk.tier, infos, rec_by)
+        sc["cb_actions"] = []
+        sc["thread_actions"] = []
+        s = _c09.run_scenario(sc, infos)
+        dist["end_to_end_sessions"] = dist.get("end_to_end_sessions", 0) + 1
+        if s.sim.failure is not None or not getattr(s, "insts", None):
+            chk.violation("end-to-end:no-termination", f"the session never came to rest: {s.sim.failure}", {"scenario": sc})
+            continue
+        for (iid, finals), idx in zip(s.insts, sc["subs"]):
+            cls, cid, funcs = infos[idx]
+            ref = reference(cls, cid, funcs, sc["history"])
+            for name, got in finals:
+                if cid == "SYS" and name == "MODELNAME":
+                    continue  # the one line the connection may withhold (C13)
+                if name in ref and got != ref[name]:
+                    chk.violation(
+                        f"{cls.__name__}.{name}:end-to-end",
+                        f"after the device had sent its {len(sc['history'])} lines over a live connection, {cls.__name__}.{name} holds {got!r}; the last value it reported decodes to {ref[name]!r}",
+                        {"scenario": sc, "class": cls.__name__},
+                    )
+                    break
+        chk.count_case(["e2e", sc["seed"]], len(sc["history"]) >= 3)
+
     validated = 0
     if not any(b["obligation"].startswith(("translator", "compile")) for b in chk.broken):
         sel = list(range(len(cases)))
@@ -203,7 +232,8 @@ def run(chk: Check):
     chk.cov["rule"] = (
         f"for each of the {len(infos)} subunit classes {per_class} histories of 0-200 messages (60% own functions with recorded/valid/odd values, 20% other subunits "
         "incl. same function names and look-alike ids, 10% unknown functions, 10% error or junk lines) delivered through a real YncaConnection to a real instance; "
-        "all readable attributes compared with an independent last-value reference during and after the history; final caches compared with the Coq model. "
+        "all readable attributes compared with an independent last-value reference during and after the history; final caches compared with the Coq model; "
+        "in addition sessions in which the device sends such histories as bytes over a live connection (reader thread, framing, keep-alive handling) under the deterministic harness. "
         "distinct by (class, initialised, history); non-trivial = at least 3 messages and at least one for this subunit."
     )
     chk.cov["input_distribution"] = dist
@@ -222,6 +252,18 @@ def replay(path):
     d = json.load(open(path))
     r = d["replay"]
     infos, _ = class_info()
+    if "scenario" in r:
+        from . import c09 as _c09
+
+        sc = r["scenario"]
+        sc["history"] = [(m[0], tuple(m[1]) if m[1] else None) for m in sc["history"]]
+        s = _c09.run_scenario(sc, infos)
+        for (iid, finals), idx in zip(s.insts, sc["subs"]):
+            cls, cid, funcs = infos[idx]
+            ref = reference(cls, cid, funcs, sc["history"])
+            print(cls.__name__, "implementation:", [x for x in finals if x[1] != ("absent",)])
+            print(cls.__name__, "required      :", {k: v for k, v in ref.items() if v != ("absent",)})
+        return 0
     for cls, cid, funcs in infos:
         if cls.__name__ == r.get("class") and "history" in r:
             h = [(m[0], tuple(m[1]) if m[1] else None) for m in r["history"]]
